@@ -346,7 +346,7 @@ class C07(core.Check):
                           'registers': ['ra', 'sp'], 'collect_all': True}],
                 'meta': {'channel': 'direct', 'items': items}, 'tags': ['channel:direct', tag]}
 
-    def _cli_case(self, items, endian, fmt, rng, malformed=None):
+    def _cli_case(self, items, endian, fmt, rng, malformed=None, channel=None):
         obj = isa.base_isa(address_size=16, endian=endian)
         # an instruction whose single operand is a 64-bit numeric argument: the same expressions in operand position
         obj['operand_sets']['imm64'] = {'operand_values': {'i64': {'type': 'numeric', 'argument': {'size': 64, 'byte_align': True}}}}
@@ -377,6 +377,8 @@ class C07(core.Check):
             pos = rng.randrange(0, len(line_of) + 1)
             r_ = rng.random()
             mt = malformed['text']
+            if channel is not None:
+                r_ = {'operand': 0.1, 'constant=': 0.4, 'constantEQU': 0.5, 'data': 0.9}[channel]
             bad = f'w64 {mt}' if r_ < 0.3 and mt.strip() else (f'c07_bad = {mt}' if r_ < 0.45 else f'c07_bad EQU {mt}' if r_ < 0.55
                                                                  else f'.8byte {mt}')
             lines.insert(rng.randrange(len(LABELS) + 2, len(lines) + 1), bad)
@@ -406,6 +408,11 @@ class C07(core.Check):
                 continue
             good = [it for it in pre[(k * 7) % len(pre):][:6] if it['dc'] is None]
             yield self._cli_case(good, 'big', 'json', rng, malformed=m)
+            # and through each place an expression can stand in, in turn (not left to chance)
+            yield self._cli_case(good, 'big', 'json', core.rng_for(0, self.pid, 'mal-channel', k), malformed=m,
+                                 channel=['operand', 'constant=', 'constantEQU', 'data'][k % 4])
+            yield self._cli_case(good, 'big', 'json', core.rng_for(0, self.pid, 'mal-channel2', k), malformed=m,
+                                 channel=['constant=', 'constantEQU'][k % 2])
             k += 1
         # random part
         n_direct = 60 if tier == 'quick' else 900
